@@ -25,23 +25,29 @@ use std::io::{BufRead, BufReader, BufWriter, Write};
 use std::panic::{catch_unwind, AssertUnwindSafe};
 use std::path::PathBuf;
 use std::rc::Rc;
-use std::sync::atomic::{AtomicIsize, Ordering};
+use std::sync::atomic::Ordering;
 
 // ---------------------------------------------------------------------------------------------
 // counting allocator (C02: live heap at observation points)
 struct Counting;
-static LIVE: AtomicIsize = AtomicIsize::new(0);
+// per-thread (a shared atomic makes every allocation of every worker contend for one cache line);
+// const-initialised and without destructor, so it is safe to touch from the allocator
+thread_local! { static LIVE: std::cell::Cell<isize> = const { std::cell::Cell::new(0) }; }
+#[inline(always)]
+fn live_add(d: isize) {
+    let _ = LIVE.try_with(|l| l.set(l.get() + d));
+}
 unsafe impl GlobalAlloc for Counting {
     unsafe fn alloc(&self, l: Layout) -> *mut u8 {
-        LIVE.fetch_add(l.size() as isize, Ordering::Relaxed);
+        live_add(l.size() as isize);
         System.alloc(l)
     }
     unsafe fn dealloc(&self, p: *mut u8, l: Layout) {
-        LIVE.fetch_sub(l.size() as isize, Ordering::Relaxed);
+        live_add(-(l.size() as isize));
         System.dealloc(p, l)
     }
     unsafe fn realloc(&self, p: *mut u8, l: Layout, n: usize) -> *mut u8 {
-        LIVE.fetch_add(n as isize - l.size() as isize, Ordering::Relaxed);
+        live_add(n as isize - l.size() as isize);
         System.realloc(p, l, n)
     }
 }
@@ -224,7 +230,7 @@ fn define_natives(it: &It) -> Result<(), SchemeError> {
                 let site = it.next().unwrap();
                 let iter = it.next().unwrap();
                 let sp = stack_pointer();
-                let live = LIVE.load(Ordering::Relaxed);
+                let live = LIVE.with(|l| l.get());
                 let n = match &iter {
                     Value::Number(Number::Integer(i)) => *i as i64,
                     _ => -1,
